@@ -1097,6 +1097,12 @@ func (tr *translator) translate(t *target) (def string, sig sigInfo) {
 			c, s := tr.valType(fd, ty)
 			n := fx.name(nil, a.Param)
 			params = append(params, param{n, c})
+			if a.NonNeg {
+				if s != "s64" || !strings.HasPrefix(a.Expr, "len(") {
+					tr.failAt(fd, "NonNeg abstraction must be a len(...) of type int")
+				}
+				s = "len64"
+			}
 			sig.args = append(sig.args, s)
 			fx.abs[a.Expr] = absParam{n, ty}
 		}
@@ -1335,6 +1341,16 @@ func (tr *translator) generate(repo string) (string, string) {
 		fmt.Fprintf(&v, "} is represented by the record %s (constructor %s) of Core/Arith.v; checked against the Go declaration. *)\n", n, sm.Ctor)
 	}
 	v.WriteString("\n")
+	for _, n := range snames {
+		sm := structs[n]
+		fmt.Fprintf(&s, "struct %s %s", n, sm.Ctor)
+		st := tr.pkg.Scope().Lookup(n).Type().Underlying().(*types.Struct)
+		for i, f := range sm.Fields {
+			it, _ := intType(st.Field(i).Type())
+			fmt.Fprintf(&s, " %s:%s", f.Name, it)
+		}
+		s.WriteString("\n")
+	}
 	for _, t := range tr.order {
 		def, sig := tr.translate(t)
 		v.WriteString(def)
